@@ -121,3 +121,27 @@ def prunes(p: SymPath, spec: WindowSpec, idioms: dict[int, LoopIdiom], top_cfg: 
 
 def unverified_loops(idioms: dict[int, LoopIdiom]) -> list[LoopIdiom]:
     return [i for i in idioms.values() if i.problem is not None]
+
+
+def param_roles(fi: Any) -> dict[str, str]:
+    """role -> parameter name of a private window helper, by annotation (names and order are free):
+    klass: ErrorClass, now: float, bucket: deque[...]; falls back to the canonical names"""
+    out: dict[str, str] = {}
+    for a in fi.params():
+        ann = ast.unparse(a.annotation) if a.annotation is not None else ""
+        if "ErrorClass" in ann:
+            out.setdefault("klass", a.arg)
+        elif ann.replace(" ", "") == "float":
+            out.setdefault("now", a.arg)
+        elif ann.startswith(("deque", "collections.deque", "Deque")):
+            out.setdefault("bucket", a.arg)
+    names = fi.param_names()
+    for role in ("klass", "now", "bucket"):
+        if role not in out and role in names:
+            out[role] = role
+    return out
+
+
+def arg_of(e: PEvent, name: str | None) -> Any:
+    """argument bound to parameter `name` of the (repository) callee of `e`"""
+    return e.kwargs.get(name) if name is not None else None
